@@ -27,6 +27,7 @@ import oddroots  # noqa: E402
 import nonfresh  # noqa: E402
 import roottie  # noqa: E402
 import passes  # noqa: E402
+import dups  # noqa: E402
 from c06lib import T  # noqa: E402
 
 LEVEL = "proof"
@@ -226,7 +227,7 @@ def gen_cases(ctx):
                            rdflags=c.get("rdflags", ""), planted=c.get("planted", False), rform=c.get("rform", "/w/R")))
         return cs, "replay of %s" % ctx.replay
     rnd = random.Random(ctx.seed * 7919 + 6)
-    cases = corpus()
+    cases = corpus() + dups.cases()
     n = 450 if ctx.tier == "quick" else 12000
     for i in range(n):
         tree = rtree(rnd)
@@ -248,7 +249,10 @@ def gen_cases(ctx):
         elif r < 0.36:
             c["rdflags"] = "".join(f for f in "DSFLE" if rnd.random() < 0.5)
         cases.append(c)
-    rule = ("%d hand-made attack shapes (duplicate names mixing symlink/dir/file incl. NUL-cut and case variants, "
+    rule = ("%d systematic duplicate-sibling-name images (props/C06/dups.py: 6 type combinations x link target outside R / "
+            "absolute / '..' x EQUAL or distinct inode numbers x same inode reference x adjacent or apart on disk x top level, "
+            "nested, -u sub-path, three of a name, NUL-tail spelling) + " % len(dups.cases()) +
+            "%d hand-made attack shapes (duplicate names mixing symlink/dir/file incl. NUL-cut and case variants, "
             "'.', '..', '/', absolute and empty names, non-directory root inode, sub-paths, pre-existing objects) + %d random "
             "trees (<=15 entries, depth<=3; names: 78%% sane incl. bytes >= 0x80, 14%% containing '/', '.', '..', 8%% with "
             "embedded NUL; 7%% of directories get an injected duplicate of another kind; all 7 inode kinds; 23 symlink "
@@ -546,7 +550,7 @@ ATTACK_TARGETS = [b"../../outside", b"/outside", b"..", b"../side", b"/secret", 
 
 
 def map_tree(t, f):
-    n = T(t.name, t.kind, t.target, t.xkeys, [map_tree(c, f) for c in t.children], t.data, t.mode, t.uid, t.gid, t.mtime)
+    n = T(t.name, t.kind, t.target, t.xkeys, [map_tree(c, f) for c in t.children], t.data, t.mode, t.uid, t.gid, t.mtime, t.ino, t.share)
     return f(n) or n
 
 
